@@ -51,6 +51,7 @@ theorem leaf_any (rx : Rx) (req nl : Bool) (s : FS) (l : Leaf) (c : Cons) (v : L
       | single t => cases t <;> simp [hty] at hw ⊢
       | nullable t => rfl
       | other => rfl
+      | wrapped t => rfl
     cases v with
     | absent => exact leaf_absent rx req nl _ _ (fun h => by simp only at h; rw [hnum] at h; cases h) hc
     | sc x => simp [lvTyped] at ht
@@ -67,6 +68,7 @@ theorem leaf_any (rx : Rx) (req nl : Bool) (s : FS) (l : Leaf) (c : Cons) (v : L
       | single t => cases t <;> simp [hty] at hw ⊢
       | nullable t => rfl
       | other => rfl
+      | wrapped t => rfl
     cases v with
     | absent => exact leaf_absent rx req nl _ _ (fun h => by simp only at h; rw [hnum] at h; cases h) hc
     | sc x =>
@@ -84,7 +86,11 @@ theorem C16_leaf_member (rx : Rx) (req : Bool) (s : FS) (l : Leaf) (v : LV) (hs 
   unfold memberAttrs
   cases hcs : s.cons with
   | none => cases s <;> simp [FS.cons, FS.leaf] at hcs hs
-  | some c => exact leaf_any rx req _ s l c v hs hcs hw hc ht
+  | some c =>
+    have hlc : c = l.c := by cases s <;> simp [FS.cons, FS.leaf] at hcs hs <;> rw [← hcs, ← hs]
+    have hnw : c.isWrapped = false := by rw [hlc]; exact clean_not_wrapped hc
+    simp only [extractW, hnw, Bool.false_eq_true, if_false]
+    exact leaf_any rx req _ s l c v hs hcs hw hc ht
 
 /-- **C16, parameters** (path / query / header position) -/
 theorem C16_leaf_param (rx : Rx) (req : Bool) (s : FS) (l : Leaf) (v : LV) (hs : s.leaf = some l)
@@ -93,7 +99,11 @@ theorem C16_leaf_param (rx : Rx) (req : Bool) (s : FS) (l : Leaf) (v : LV) (hs :
   unfold paramAttrs
   cases hcs : s.cons with
   | none => cases s <;> simp [FS.cons, FS.leaf] at hcs hs
-  | some c => exact leaf_any rx req _ s l c v hs hcs hw hc ht
+  | some c =>
+    have hlc : c = l.c := by cases s <;> simp [FS.cons, FS.leaf] at hcs hs <;> rw [← hcs, ← hs]
+    have hnw : c.isWrapped = false := by rw [hlc]; exact clean_not_wrapped hc
+    simp only [extractW, hnw, Bool.false_eq_true, if_false]
+    exact leaf_any rx req _ s l c v hs hcs hw hc ht
 
 /-- soundness alone, spelled out: accepted ⇒ every declared constraint holds -/
 theorem C16_leaf_sound (rx : Rx) (req : Bool) (s : FS) (l : Leaf) (v : LV) (hs : s.leaf = some l)
@@ -132,13 +142,13 @@ theorem notClean_cases (rx : Rx) (l : Leaf) (h : Clean rx l = false) :
     l.c.wellKinded = false ∨ l.c.hasEnum = true ∨ KnownNullableNumeric l.c = true ∨ KnownNullableArray l.c = true ∨
     KnownItemConstraintsLost l = true ∨ KnownSpecialFormatSkipsLength l.c = true ∨ KnownUncompilableRegex rx l.c = true ∨
     KnownIllTypedLiteral l.c = true ∨ KnownClampChangesMeaning l.c = true ∨ HarmlessClamp l.c = true ∨
-    PatternOnTypedFormat l.c = true := by
+    PatternOnTypedFormat l.c = true ∨ l.c.isWrapped = true := by
   unfold Clean at h
   unfold HarmlessClamp PatternOnTypedFormat
   cases h1 : l.c.wellKinded <;> cases h2 : l.c.hasEnum <;> cases h3 : KnownNullableNumeric l.c <;>
     cases h4 : KnownNullableArray l.c <;> cases h5 : KnownItemConstraintsLost l <;>
     cases h6 : KnownSpecialFormatSkipsLength l.c <;> cases h7 : KnownUncompilableRegex rx l.c <;>
-    cases h8 : KnownIllTypedLiteral l.c <;> cases h9 : KnownClampChangesMeaning l.c <;> simp_all
+    cases h8 : KnownIllTypedLiteral l.c <;> cases h9 : KnownClampChangesMeaning l.c <;> cases h10 : l.c.isWrapped <;> simp_all
   -- remaining: every named class is false
   cases hn : l.c.isNumeric <;> cases hl : litExact l.c <;> simp_all
   all_goals
@@ -180,10 +190,21 @@ theorem C16_char (rx : Rx) (req : Bool) (s : FS) (l : Leaf) (v : LV) (hs : s.lea
     l.c.wellKinded = false ∨ l.c.hasEnum = true ∨ KnownNullableNumeric l.c = true ∨ KnownNullableArray l.c = true ∨
     KnownItemConstraintsLost l = true ∨ KnownSpecialFormatSkipsLength l.c = true ∨ KnownUncompilableRegex rx l.c = true ∨
     KnownIllTypedLiteral l.c = true ∨ KnownClampChangesMeaning l.c = true ∨ HarmlessClamp l.c = true ∨
-    PatternOnTypedFormat l.c = true := by
+    PatternOnTypedFormat l.c = true ∨ l.c.isWrapped = true := by
   cases hc : Clean rx l with
   | true => exact Or.inl (C16_leaf_member rx req s l v hs hw hc ht)
   | false => exact Or.inr (notClean_cases rx l hc)
+
+/-- finding F16-9: a member written as a nullable WRAPPER (`anyOf | oneOf [<constrained schema>, {type: null}]`) gets NO
+validation attribute, whatever its variant declares — for every constraint set and every position -/
+theorem wrapper_gets_no_attribute (rx : Rx) (req : Bool) (c : Cons) (tr : TRef) (h : c.isWrapped = true) :
+    extractW rx.compiles req c tr = [] := by
+  simp [extractW, h]
+
+/-- outside wrappers the member's attributes are those of `extract_all_validation` on its own schema -/
+theorem extractW_eq_extract (rx : Rx) (req : Bool) (c : Cons) (tr : TRef) (h : c.isWrapped = false) :
+    extractW rx.compiles req c tr = extract rx.compiles req c tr := by
+  simp [extractW, h]
 
 /-! ## 3. literals: exact inside the range, clamped outside, harmless in two of four directions -/
 
